@@ -109,7 +109,25 @@ pub fn run(ctx: &Ctx, kind: Kind) -> i32 {
             // C02 needs line-exact locations: always token-per-line; the others alternate
             let layout = if kind == Kind::C02 || case_no % 2 == 0 { Layout::TokenPerLine } else { Layout::Compact };
             let cfg = cfg_for(kind, ctx.tier, &mut crng);
-            let (prog, pr, used) = exec::generate(&mut crng, cfg, layout);
+            // one program in eight (C01, C14) is a for-join program: accumulators, shadowing and
+            // `mut` parameters around a join loop, run on sorted key sets
+            let join_sizes = if kind != Kind::C02 && case_no % 8 == 3 { Some((crng.usize_below(5), crng.usize_below(5))) } else { None };
+            let (prog, pr, mut used) = match join_sizes {
+                Some((n, m)) => {
+                    let style = crng.next_u64();
+                    let mut jcfg = cfg;
+                    jcfg.max_cost = 1500;
+                    let prog = crate::model::gen::Gen::new(&mut crng, jcfg).gen_join_program(n, m);
+                    let pr = exec::print(&prog, style, layout);
+                    (prog, pr, std::collections::BTreeSet::new())
+                }
+                None => exec::generate(&mut crng, cfg, layout),
+            };
+            if join_sizes.is_some() {
+                used.insert("for-join");
+                used.insert("for-join-program");
+                used.insert("accumulators");
+            }
             agg.generated += 1;
             let compiled = match exec::compile_all(&pr.src) {
                 CompileResult::Ok(c) => c,
@@ -138,14 +156,38 @@ pub fn run(ctx: &Ctx, kind: Kind) -> i32 {
                 agg.constructs.inc(u);
             }
             let n_args = ctx.tier.pick(24usize, 48usize);
-            let arg_tuples: Vec<_> = (0..n_args).map(|_| gen::gen_args(&mut crng, &prog)).collect();
+            let arg_tuples: Vec<_> = match join_sizes {
+                None => (0..n_args).map(|_| gen::gen_args(&mut crng, &prog)).collect(),
+                Some((n, m)) => {
+                    use super::c13::{elem_with_key, key_universe_max, sorted_keys};
+                    use crate::model::ty::{Ty, Val};
+                    let (Ty::Array(ea, _), Ty::Array(eb, _)) = (&prog.main().params[0].ty, &prog.main().params[1].ty) else { unreachable!() };
+                    let Ty::Tuple(fa) = &**ea else { unreachable!() };
+                    let kt = fa[0].clone();
+                    (0..n_args)
+                        .map(|_| {
+                            let universe = ((n + m) as u64 + 1 + crng.below(3)).min(key_universe_max(&kt)).max(n.max(m) as u64 + 1);
+                            let ka = sorted_keys(&mut crng, n, universe, true);
+                            let kb = sorted_keys(&mut crng, m, universe, true);
+                            let mut t = vec![
+                                Val::Array(ka.iter().map(|k| elem_with_key(&mut crng, ea, *k, &prog.defs)).collect()),
+                                Val::Array(kb.iter().map(|k| elem_with_key(&mut crng, eb, *k, &prog.defs)).collect()),
+                            ];
+                            if let Some(p) = prog.main().params.get(2) {
+                                t.push(crate::model::ty::gen_val(&mut crng, &p.ty, &prog.defs));
+                            }
+                            t
+                        })
+                        .collect()
+                }
+            };
             let before_ok = agg.st.expected_ok;
             let before_panic = agg.st.expected_panic;
             match exec::run_batch(&prog, &pr, &compiled, &arg_tuples, &mut agg.st) {
                 Err(e) => {
                     ctx.violation(
                         &format!("generated program: {e}"),
-                        json!({"kind": "program-structure", "case_seed": case_seed, "layout": format!("{layout:?}"), "program": pr.src, "problem": e}),
+                        json!({"kind": "program-structure", "case_seed": case_seed, "for_join": join_sizes.is_some(), "layout": format!("{layout:?}"), "program": pr.src, "problem": e}),
                     );
                 }
                 Ok(mm) => {
@@ -158,7 +200,7 @@ pub fn run(ctx: &Ctx, kind: Kind) -> i32 {
                         ctx.violation(
                             &format!("{:?} in {} (and {} more disagreeing executions of this program)", first.verdict, first.config, mine.len() - 1),
                             json!({
-                                "kind": "program-execution", "case_seed": case_seed, "layout": format!("{layout:?}"), "program": pr.src,
+                                "kind": "program-execution", "case_seed": case_seed, "for_join": join_sizes.is_some(), "layout": format!("{layout:?}"), "program": pr.src,
                                 "mismatches": mine.iter().take(4).map(|m| json!({"config": m.config, "verdict": format!("{:?}", m.verdict), "args": m.args_text, "expected": m.expected, "observed": m.observed})).collect::<Vec<_>>(),
                             }),
                         );
@@ -282,7 +324,17 @@ pub fn replay(kind: Kind, path: &str) -> i32 {
     let layout = if v["case"]["layout"].as_str() == Some("Compact") { Layout::Compact } else { Layout::TokenPerLine };
     let mut crng = Rng::new(case_seed);
     let cfg = cfg_for(kind, tier, &mut crng);
-    let (prog, pr, _used) = exec::generate(&mut crng, cfg, layout);
+    let (prog, pr, _used) = if v["case"]["for_join"].as_bool() == Some(true) {
+        let (n, m) = (crng.usize_below(5), crng.usize_below(5));
+        let style = crng.next_u64();
+        let mut jcfg = cfg;
+        jcfg.max_cost = 1500;
+        let prog = crate::model::gen::Gen::new(&mut crng, jcfg).gen_join_program(n, m);
+        let pr = exec::print(&prog, style, layout);
+        (prog, pr, std::collections::BTreeSet::new())
+    } else {
+        exec::generate(&mut crng, cfg, layout)
+    };
     if let Some(p) = v["case"]["program"].as_str() {
         if p != pr.src {
             println!("note: regenerated program text differs from the recorded one (generator changed since the record was written)");
